@@ -78,3 +78,97 @@ def _deterministic_result(I, b):
 from pyvc.contracts import REGISTRY as _REGT
 
 _REGT.contracts["bellows.types.named.sl_Status.from_ember_status"].returns_fn = _deterministic_result
+
+
+# ---------------------------------------------------------------------------
+# memoisation (functools.lru_cache / cache) of the conversion: sound only if the result is a function of the
+# cache key.  Int-backed enum members of different families with the same number are == and hash alike, so a
+# cache keyed on (cls, status) must give equal results for them.
+# ---------------------------------------------------------------------------
+from contracts import index as _index
+
+
+def same_key_same_result(status1, status2):
+    """two conversions whose arguments a cache cannot tell apart"""
+    return (t.sl_Status.from_ember_status(status1), t.sl_Status.from_ember_status(status2))
+
+
+_FAMILIES = (("unified", t.sl_Status), ("ember", t.EmberStatus), ("ezsp", t.EzspStatus))
+
+
+@contract("contracts.types_named.same_key_same_result", props=[])  # run only when the function is memoised
+def _(c):
+    c.cases(*[(f"{a}/{b}", {"status1": T.enum(ca), "status2": T.enum(cb)}) for a, ca in _FAMILIES for b, cb in _FAMILIES if a < b])
+    c.inline_callees = True
+    c.requires("pre.equal_cache_keys", lambda status1, status2: status1 == status2)
+    c.ensures("lemma.result_depends_on_the_cache_key_only", lambda result: result[0] == result[1])
+
+
+_MEMO_DECORATORS = ("functools.lru_cache", "functools.cache", "lru_cache", "cache")
+
+
+def _decorators_of(qualname):
+    import ast as _ast
+
+    from pyvc import source
+
+    node, _m, _h = source.find_function(qualname)
+    return [_ast.unparse(d) for d in node.decorator_list]
+
+
+_fes = _REGT.contracts["bellows.types.named.sl_Status.from_ember_status"]
+# the body proof accepts a memoising decorator; whether memoising is sound is the relational obligation below
+_fes.accepted_decorators = tuple(
+    d for d in ("functools.lru_cache", "functools.cache", "lru_cache", "cache", "functools.lru_cache(maxsize=None)",
+                "functools.lru_cache()", "lru_cache(maxsize=None)", "lru_cache()")
+)
+
+
+def _replay_memo(inputs):
+    """runs the real (memoised) function on the two arguments and compares with the un-memoised body"""
+    from pyvc.replay import Builder, Recorder
+
+    b = Builder(Recorder())
+    s1, s2 = b.build(inputs["status1"]), b.build(inputs["status2"])
+    f = t.sl_Status.from_ember_status
+    raw = getattr(f, "__wrapped__", None)
+    if hasattr(f, "cache_clear"):
+        f.cache_clear()
+    r1, r2 = f(s1), f(s2)
+    want2 = raw(t.sl_Status, s2) if raw is not None else None
+    return {"first_call": repr(s1) + " -> " + repr(r1), "second_call": repr(s2) + " -> " + repr(r2),
+            "second_call_without_cache": repr(want2), "confirmed": raw is not None and r2 != want2}
+
+
+def _memoisation_sound(tier):
+    from pyvc import engine
+
+    decs = _decorators_of("bellows.types.named.sl_Status.from_ember_status")
+    memo = [d for d in decs if d.split("(")[0] in _MEMO_DECORATORS]
+    name = "bellows.types.named.sl_Status.from_ember_status::memo.result_depends_on_cache_key_only"
+    if not memo:
+        return [{"name": name, "verdict": "proved", "backend": "source", "t": 0.0,
+                 "detail": f"not memoised (decorators: {decs})", "witness": None}]
+    con = _REGT.contracts["contracts.types_named.same_key_same_result"]
+    worst, detail, witness, tsum = "proved", [], None, 0.0
+    for case in engine.cases_of(con):
+        rep = engine.verify(con, case).to_dict()
+        tsum += rep["solver_s"]
+        for k, o in rep["obligations"].items():
+            if k.endswith("__canary__"):
+                continue
+            if o["verdict"] == "refuted" and k.endswith("lemma.result_depends_on_the_cache_key_only"):
+                worst = "refuted"
+                ref = [r for r in rep["refutations"] if r["obligation"] == k]
+                witness = {"families": case[0], "inputs": ref[0]["inputs"] if ref else None}
+                witness["native_replay"] = _replay_memo(ref[0]["inputs"]) if ref else None
+            elif o["verdict"] != "proved" and worst == "proved":
+                worst = "undecided"
+        if rep["outside_reach"] and worst == "proved":
+            worst = "undecided"
+            detail.append(rep["outside_reach"])
+    return [{"name": name, "verdict": worst, "backend": "z3", "t": tsum,
+             "detail": f"memoised with {memo}: equal cache keys must give equal results; {detail}", "witness": witness}]
+
+
+_index.extra("C18")(_memoisation_sound)
